@@ -218,7 +218,7 @@ def scale():
 def fit_jobs(run):
     r = run.rng
     if run.quick():
-        plan = [("daily", "current-weekday"), ("daily", "legacy"), ("daily", "current-dev"), ("daily", "legacy-dev"),
+        plan = [("daily", "current-weekday"), ("daily", "legacy"), ("daily", "current-dev"), ("daily", "legacy-dev"), ("daily", "legacy-heating"),
                 ("billing", "billing"), ("billing", "billing-season"),
                 ("hourly", "default"), ("hourly", "reversed-solar"), ("hourly", "supplemental-names"), ("hourly", "no-edge-bins"),
                 ("caltrack", "caltrack"), ("caltrack", "caltrack-4weeks")]
